@@ -74,6 +74,105 @@ def small_asts(maxnodes, names='AB', orders=(1, 2, 0)):
         yield from chains(n)
 
 
+def ringspec_case(rng):
+    """a string drawn straight from the grammar of Spec/Ring.lean, i.e. from the quantifier of the theorem
+    C04_read_ring: every node carries any list of markers, each with any bond symbol (or none) in front, written as
+    a digit or as %dd, ids drawn from a small pool so that markers close, re-open on the same node, nest and
+    interleave - or stay open / duplicate a bond, in which case SyntaxError is what the grammar denotes.  The only
+    constraint is the theorem's `MarksOk`: the marker after a %dd marker does not start with a digit."""
+    n = rng.randint(1, 8)
+    pool = rng.sample(range(10), rng.randint(1, 3))
+    items = []
+    opened = {}
+
+    def add(marks, rid, k):
+        pct = rid >= 10 or rng.random() < 0.25
+        order = rng.choice([1, 1, 1, 2, 0, 3, 4])
+        if marks and marks[-1][2] and not pct and order == 1:
+            order = rng.choice([2, 0, 3, 4])
+        marks.append((rid, order, pct))
+        if rid in opened:
+            del opened[rid]
+        else:
+            opened[rid] = k
+    for i in range(n):
+        marks = []
+        for _ in range(rng.choice([0, 0, 1, 1, 2, 3])):
+            # mostly well-formed: prefer closing a marker opened at least two nodes back
+            closable = [r for r, k in opened.items() if k < i - 1]
+            if closable and rng.random() < 0.6:
+                rid = rng.choice(closable)
+            else:
+                # (a marker opened and closed on one and the same node is outside the documented grammar: not written)
+                free = [r for r in pool + ([rng.choice([10, 12, 37, 99])] if rng.random() < 0.15 else []) if opened.get(r) != i and (opened.get(r) != i - 1 or rng.random() < 0.1)]
+                # a marker opened on one of the last two nodes can only stay open or duplicate a chain bond: rarely
+                if not free or (i > n - 3 and not any(r in opened for r in free) and rng.random() < 0.9):
+                    continue
+                rid = rng.choice(free)
+            add(marks, rid, i)
+        if i == n - 1 and rng.random() < 0.85:
+            for rid in [r for r, k in opened.items() if k != i]:
+                add(marks, rid, i)
+        items.append({'name': rng.choice(['A', 'B', 'C1', 'PEO', 'x9']), 'order': rng.choice([1, 1, 1, 2, 0, 3, 4]), 'marks': marks})
+    s = '{'
+    for i, it in enumerate(items):
+        if i:
+            s += gen_graph.SYM[it['order']]
+        s += '[#%s]' % it['name']
+        for rid, order, pct in it['marks']:
+            s += gen_graph.SYM[order] + ('%%%02d' % rid if pct else str(rid))
+    return {'kind': 'ringspec', 's': s + '}', 'items': items}
+
+
+def ringspec_denote(items):
+    """Python mirror of `ringGraph` (Spec/Ring.lean): ('ok', nodes, edges) or ('err', 'SyntaxError')"""
+    names, edges, opened = [], {}, {}
+    for k, it in enumerate(items):
+        names.append(it['name'])
+        if k:
+            edges[frozenset((k - 1, k))] = it['order']
+        todo = []
+        for rid, order, _ in it['marks']:
+            if rid in opened:
+                node, o = opened.pop(rid)
+                todo.append((k, node, o))
+            else:
+                opened[rid] = (k, order)
+        for a, b, o in todo:
+            if frozenset((a, b)) in edges:
+                return ('err', 'syntax')
+            edges[frozenset((a, b))] = o
+    if opened:
+        return ('err', 'syntax')
+    return ('ok', names, edges)
+
+
+def ringspec_oracle(ctx, case, got):
+    if case.get('kind') != 'ringspec':
+        return
+    want = ringspec_denote(case['items'])
+    payload = {'kind': 'ringspec', 's': case['s'], 'items': case['items']}
+    if want[0] == 'err':
+        if got[0] == 'ok':
+            ctx.fail(payload, 'the grammar denotes SyntaxError (open marker or duplicate bond), the reader returns a graph')
+        elif got[1] != 'syntax':
+            ctx.fail(payload, f'the grammar denotes SyntaxError, the reader raises {got[1]}')
+        return
+    if got[0] != 'ok':
+        ctx.fail(payload, f'grammar string rejected: {got[1]}')
+        return
+    g = got[1]
+    names = [g.nodes[k].get('fragname') for k in sorted(g.nodes)]
+    if sorted(g.nodes) != list(range(len(want[1]))) or names != want[1]:
+        ctx.fail(payload, f'nodes {names}, denoted {want[1]}')
+        return
+    have = {frozenset(e[:2]): e[2] for e in g.edges(data='order')}
+    if have != want[2]:
+        a = sorted((sorted(k), v) for k, v in have.items() if want[2].get(k) != v)[:4]
+        b = sorted((sorted(k), v) for k, v in want[2].items() if have.get(k) != v)[:4]
+        ctx.fail(payload, f'edges differ: read {a}, denoted {b}')
+
+
 def run(ctx):
     rng = ctx.rng('graphstr')
     for _ in range(ctx.budget(1500, 30000)):
@@ -84,6 +183,15 @@ def run(ctx):
         ctx.feature('rings=%d' % min(case['nrings'], 4))
         if '))' in case['s']:
             ctx.feature('consecutive-closings')
+    # the quantifier of C04_read_ring itself (seeded change C04-14: a symbol in front of a closing marker was inside the
+    # theorem's grammar but never written by the generator above, so the tie did not cover it)
+    rng_r = ctx.rng('ringspec')
+    for _ in range(ctx.budget(700, 12000)):
+        if ctx.out_of_time():
+            break
+        case = ringspec_case(rng_r)
+        got = suites.run_read_case(ctx, 'ringspec', case['s'], oracle=ringspec_oracle, case=case)
+        ctx.feature('ringspec:' + ('graph' if got[0] == 'ok' else 'rejected'))
     # letters outside ASCII in node names and annotation values (the documented grammar does not restrict names to ASCII; the
     # model does, so these are looked at by the denotation oracle alone)
     rng_u = ctx.rng('non-ascii')
@@ -118,14 +226,14 @@ def run(ctx):
 
 def corpus_case(ctx, payload):
     case = payload.get('case', {})
-    suites.run_read_case(ctx, 'corpus', case['s'], oracle=oracle, case=case)
+    suites.run_read_case(ctx, 'corpus', case['s'], oracle=ringspec_oracle if case.get('kind') == 'ringspec' else oracle, case=case)
 
 
 def replay(payload):
     import check
     ctx = check.Ctx(PROP, 'quick', 0, oracle_only=True)
     case = payload['case']
-    got = suites.run_read_case(ctx, 'replay', case['s'], oracle=oracle, case=case)
+    got = suites.run_read_case(ctx, 'replay', case['s'], oracle=ringspec_oracle if case.get('kind') == 'ringspec' else oracle, case=case)
     print('input:', case['s'])
     print('result:', got[1] if got[0] == 'err' else (list(got[1].nodes(data='fragname')), list(got[1].edges(data='order'))))
     for c, what, _ in ctx.failures:
